@@ -1,3 +1,116 @@
-From Coq Require Import List.
-Theorem c04_placeholder : True. Proof. exact I. Qed.
-Print Assumptions c04_placeholder.
+(* C04 — basis-change contexts are transparent and self-restoring.
+   Statements only; proofs in Proofs/C04.v (bookkeeping state machine over an abstract group action)
+   and Proofs/Tensor.v (the concrete per-class actions S1.A.S and the two-pass tensor transformation).
+   Model in Model/C04.v (executable instance Model/C04x.v is what the correspondence check runs). *)
+From Coq Require Import ZArith List Bool Arith.
+From QV Require Import Base.Alg Base.Sums Base.Mat Base.Tens Base.Group Model.C04 Proofs.C04 Proofs.Tensor.
+Import ListNotations.
+
+(* EVERY program (creation, reads, writes, protection, apply-with-copy, arbitrarily nested contexts,
+   exceptions anywhere, handlers) run outside every context ends with the bookkeeping restored, no
+   object left with a stale tag, and every unprotected object the program did not itself overwrite
+   back in exactly its original representation.  G is any group of basis changes acting on the data. *)
+Theorem c04_contexts_restore : forall (G X : Type) (gid : G) (gmul : G -> G -> G) (ginv : G -> G)
+  (act : G -> X -> X) (app : X -> X -> X),
+  (forall a b c, gmul a (gmul b c) = gmul (gmul a b) c) -> (forall a, gmul gid a = a) -> (forall a, gmul a gid = a) ->
+  (forall a, gmul a (ginv a) = gid) -> (forall a, gmul (ginv a) a = gid) ->
+  (forall x, act gid x = x) -> (forall g h x, act (gmul g h) x = act h (act g x)) ->
+  forall (p : prog G X) (s : mst G X), repaired G X p = true -> Inv G X s -> trans G X s = [] ->
+  let '(s', r, obs) := exec G X gid gmul ginv act app p s in
+  trans G X s' = [] /\ reg G X s' = [] /\
+  (forall j o', heap G X s' j = Some o' -> tag X o' = 0%nat) /\
+  (forall j o, ~ In j (writes G X p) -> heap G X s j = Some o -> prot X o = false ->
+     exists o', heap G X s' j = Some o' /\ dat X o' = dat X o /\ tag X o' = 0%nat /\ prot X o' = false).
+Proof.
+  intros G X gid gmul ginv act app A1 A2 A3 A4 A5 A6 A7 p s.
+  exact (top_level_restores G X gid gmul ginv act app A1 A2 A3 A4 A5 A6 A7 p s).
+Qed.
+Print Assumptions c04_contexts_restore.
+
+(* at every intermediate point (inside any nesting) the invariant of the bookkeeping holds, the stack
+   is what it was when the program fragment started, and untouched objects denote the same site-basis
+   value *)
+Theorem c04_invariant_every_fragment : forall (G X : Type) (gid : G) (gmul : G -> G -> G) (ginv : G -> G)
+  (act : G -> X -> X) (app : X -> X -> X),
+  (forall a b c, gmul a (gmul b c) = gmul (gmul a b) c) -> (forall a, gmul gid a = a) -> (forall a, gmul a gid = a) ->
+  (forall a, gmul a (ginv a) = gid) -> (forall a, gmul (ginv a) a = gid) ->
+  (forall x, act gid x = x) -> (forall g h x, act (gmul g h) x = act h (act g x)) ->
+  forall (p : prog G X) (s : mst G X), repaired G X p = true -> Inv G X s ->
+  let '(s', r, obs) := exec G X gid gmul ginv act app p s in
+  Inv G X s' /\ trans G X s' = trans G X s /\ keeps_out G X gid gmul ginv act (writes G X p) s s'.
+Proof.
+  intros G X gid gmul ginv act app A1 A2 A3 A4 A5 A6 A7 p s.
+  exact (exec_spec G X gid gmul ginv act app A1 A2 A3 A4 A5 A6 A7 p s).
+Qed.
+Print Assumptions c04_invariant_every_fragment.
+
+(* inside a context an unprotected object is presented in the current basis: what is read is its
+   site-basis value carried through all transformations on the stack *)
+Theorem c04_read_presents_current_basis : forall (G X : Type) (gid : G) (gmul : G -> G -> G) (ginv : G -> G)
+  (act : G -> X -> X),
+  (forall a b c, gmul a (gmul b c) = gmul (gmul a b) c) -> (forall a, gmul gid a = a) -> (forall a, gmul a gid = a) ->
+  (forall a, gmul a (ginv a) = gid) -> (forall a, gmul (ginv a) a = gid) ->
+  (forall x, act gid x = x) -> (forall g h x, act (gmul g h) x = act h (act g x)) ->
+  forall (s : mst G X) i s' x o, Inv G X s -> heap G X s i = Some o -> prot X o = false ->
+  read G X gid gmul act s i = Some (s', Some x) ->
+  x = act (Pr G gid gmul (trans G X s)) (site G X gid gmul ginv act (trans G X s) o).
+Proof.
+  intros G X gid gmul ginv act A1 A2 A3 A4 A5 A6 A7 s i s' x o.
+  exact (read_presents_current G X gid gmul ginv act A1 A2 A3 A4 A5 A6 A7 s i s' x o).
+Qed.
+Print Assumptions c04_read_presents_current_basis.
+
+(* the concrete actions are group actions that keep the basis-independent quantities:
+   operators  A -> S^-1 A S  compose, are undone by the inverse, keep tr A and tr(A B) *)
+Theorem c04_operator_transform_laws : forall (R : StarRing) n (S1 S T1 T A B : @mat R),
+  meq n (sim n T1 T (sim n S1 S A)) (sim n (mmul n T1 S1) (mmul n S T) A) /\
+  meq n (sim n (@mid R) (@mid R) A) A /\
+  (meq n (mmul n S S1) (@mid R) ->
+     meq n (sim n S S1 (sim n S1 S A)) A /\ mtr n (sim n S1 S A) = mtr n A /\
+     mtr n (mmul n (sim n S1 S A) (sim n S1 S B)) = mtr n (mmul n A B)).
+Proof.
+  intros R n S1 S T1 T A B. split; [apply sim_comp|]. split; [apply sim_id|]. intros H.
+  split; [now apply sim_inverse|]. split; [now apply mtr_sim|now apply mtr_prod_sim].
+Qed.
+Print Assumptions c04_operator_transform_laws.
+
+(* four-index tensors: applying the transformed tensor to the transformed operator is the transformed
+   result, for ANY invertible S (complex unitary included) - the repaired two-pass transformation *)
+Theorem c04_tensor_application_basis_independent : forall (R : StarRing) n (S1 S : @mat R) (T : @tens R) (A : @mat R),
+  meq n (mmul n S S1) (@mid R) ->
+  meq n (tapply n (ttrans n S1 S T) (sim n S1 S A)) (sim n S1 S (tapply n T A)).
+Proof. intros R n. exact (ttrans_covariant n). Qed.
+Print Assumptions c04_tensor_application_basis_independent.
+
+Theorem c04_tensor_back_in_original_representation : forall (R : StarRing) n (S1 S : @mat R) (T : @tens R) (A : @mat R),
+  meq n (mmul n S S1) (@mid R) -> meq n (mmul n S1 S) (@mid R) ->
+  meq n (tapply n (ttrans n S S1 (ttrans n S1 S T)) A) (tapply n T A).
+Proof. intros R n. exact (ttrans_roundtrip_action n). Qed.
+Print Assumptions c04_tensor_back_in_original_representation.
+
+(* the pinned second pass is the same transformation exactly when the inverse is the transpose ... *)
+Theorem c04_pinned_pass_right_for_orthogonal : forall (R : StarRing) n (S1 S : @mat R) (T : @tens R),
+  (forall i j, (i < n)%nat -> (j < n)%nat -> S1 i j = S j i) -> teq n (ttrans_pinned n S1 S T) (ttrans n S1 S T).
+Proof. intros R n. exact (ttrans_pinned_eq_orthogonal n). Qed.
+Print Assumptions c04_pinned_pass_right_for_orthogonal.
+
+(* ... and wrong for a complex unitary one (refutation witness for the pinned tree, repaired by a fix: commit) *)
+Theorem c04_pinned_pass_unitary_refuted :
+  mmul 2 U_demo U1_demo 0%nat 0%nat = (1,0)%Z /\ mmul 2 U_demo U1_demo 1%nat 1%nat = (1,0)%Z /\
+  tapply 2 (ttrans_pinned 2 U1_demo U_demo Id_tens) (sim 2 U1_demo U_demo A_demo) 0%nat 1%nat = (0,1)%Z /\
+  sim 2 U1_demo U_demo (tapply 2 Id_tens A_demo) 0%nat 1%nat = (0,-1)%Z /\
+  tapply 2 (ttrans 2 U1_demo U_demo Id_tens) (sim 2 U1_demo U_demo A_demo) 0%nat 1%nat = (0,-1)%Z.
+Proof. exact pinned_unitary_witness. Qed.
+Print Assumptions c04_pinned_pass_unitary_refuted.
+
+(* the pinned apply() left its copy with a stale tag: reading it outside raises; the repaired one does not *)
+Theorem c04_stale_copy_refuted :
+  snd (fst (trivial_exec (stale_prog CopyUnregistered) (mkM unit nat [] [] (fun _ => None)))) = true /\
+  snd (fst (trivial_exec (stale_prog CopyRegistered) (mkM unit nat [] [] (fun _ => None)))) = false.
+Proof. exact stale_copy_witness. Qed.
+Print Assumptions c04_stale_copy_refuted.
+
+(* non-vacuity: the fresh manager satisfies the invariant and the demo program is a repaired one *)
+Example c04_hypotheses_satisfiable :
+  Inv unit nat (mkM unit nat [] [] (fun _ => None)) /\ repaired unit nat (stale_prog CopyRegistered) = true.
+Proof. split; [apply Inv_fresh|reflexivity]. Qed.
